@@ -195,7 +195,7 @@ func cmdNode(args []string) {
 		r.reset()
 		st.Segments++
 		present := map[int]bool{}
-		target := []int{256, 60, 256, 20, 50, 2}[w%6]
+		target := []int{256, 16, 60, 256, 16, 20, 50, 15}[w%8] // 16: a completely full 16-slot node that never grows further
 		up := true
 		for i := 0; i < 1400 && !r.dead; i++ {
 			if up && len(present) >= target {
